@@ -39,6 +39,7 @@ Definition check_V (p : string) (args : list sexp) : list sexp :=
       match dec_vcase fmt r pr cx, dec_outcome impl, dec_opt dec_bool base with
       | Some c, Some o, Some b =>
           let m := run_model cfg_current c in
+          if negb (case_wf1 c) then [A "decode-error"; A "case-not-wellformed"] else
           match ok_V p c b o with
           | Some okv =>
               [A (if okv then (if rel_V o m then "ok" else "rel") else "bad");
